@@ -172,12 +172,9 @@ func (c *pctx) violate(sig, what, sub, rank string, replay any) {
 		Replay: map[string]any{"rank": rank, "input": replay}}, rank}
 }
 
-func rankLess(a, b string) bool {
-	if len(a) != len(b) {
-		return len(a) < len(b)
-	}
-	return a <= b
-}
+// rankLess: ranks start with fixed-width numeric fields (oddness, input
+// length), so plain string order puts the simplest, shortest input first.
+func rankLess(a, b string) bool { return a <= b }
 
 func (c *pctx) flush() {
 	if os.Getenv("C12_DEBUG_OUTCOMES") != "" {
